@@ -7,6 +7,7 @@ independent FIFO/linearisation oracle written from the property text)."""
 import glob, hashlib, json, os, re, sys
 from concurrent.futures import ThreadPoolExecutor
 import vlib
+import skeleton
 
 META = {
     'engine': 'lean-S',
@@ -26,7 +27,7 @@ META = {
 REQUIRED = ['Librfn.C05.' + t for t in (
     'wrap_eq', 'init_inv', 'step_inv', 'ring_inv', 'ring_inv_acts', 'delivered_in_order_once', 'get_returns_unsigned_byte', 'put_true_appends',
     'put_fails_only_if_full', 'get_minus1_only_if_empty', 'empty_true_only_if_empty', 'indices_in_bounds', 'no_overwrite_before_read',
-    'ring_no_adjacent_conflict')]
+    'ring_no_adjacent_conflict', 'skeleton_matches_ring', 'ring_ord_all_seqcst', 'ring_fields_atomic', 'ring_payload_inside_publish')]
 LENS = [2, 3, 4, 5, 16]
 
 
@@ -199,7 +200,7 @@ def batch_text(hs):
     return ''.join('reset\n' + '\n'.join(lines_of(h)) + '\n--\n' for h in hs)
 
 
-def run_impl(exe, hs, timeout=120, cpu=None):
+def run_impl(exe, hs, timeout=40, cpu=None):
     """outputs per history; a crash/hang ends the process, so the remaining histories are re-run in a new one"""
     outs, rest = [], list(hs)
     cmd = (['env', 'BATON_CPU=%d' % cpu] if cpu is not None else []) + [exe]
@@ -349,6 +350,8 @@ def load_corpus():
 def run(ctx):
     rng = vlib.Rng(ctx.seed)
     ctx._bytes = set()
+    for unit, err in skeleton.regen_skeleton(['ringbuf']):
+        ctx.broken.append(f'tie S: atomic-operation skeleton of {unit} could not be extracted from the source: {err}')
     ctx.prove(['Librfn.Props.C05'], REQUIRED)
     exe = harness(ctx)
     if not ctx.build_model():
@@ -356,7 +359,7 @@ def run(ctx):
     bs = ByteSource(rng)
     corpus = load_corpus()
     agreed = check_histories(ctx, exe, corpus)
-    n = 260 if ctx.tier == 'quick' else 6000
+    n = 1000 if ctx.tier == 'quick' else 6000
     hs = [gen_history(rng, bs) for _ in range(n)]
     if not ctx.violations:
         agreed += check_histories(ctx, exe, hs, workers=1 if ctx.tier == 'quick' else 8)
